@@ -158,6 +158,31 @@ Proof. exact macd_float_error. Qed.
 Theorem C02_macd_error_unit : forall p M, ebound p M = (17 * (IZR (Z.of_N p) + 1) * u * M)%R.
 Proof. reflexivity. Qed.
 
+(* ... and for AverageTrueRange and KeltnerChannel on scalars, streams of ANY length: ATR within 17 (n+1) u (3M) + 3 u M of the real EMA
+   of the real true ranges, and every KeltnerChannel band within Ea + K Et + 24 (1+K) u M of the real band average +- ATR * m, where
+   Ea, Et are the EMA / ATR bounds and |m| <= K (any multiplier, negative included) *)
+From TA Require Import Proofs.FloatKcErr.
+Theorem C02_atr_binary64_uniform : forall p a xs M, atr_new FOps p = Ok a -> (p < 35184372088832)%N ->
+  (1 <= M)%R -> (3 * M <= bpow radix2 990)%R -> Forall (okin M) xs ->
+  let outs := atr_outs FOps a xs in
+  let reals := ema_stream (kreal p) (tr_stream (map FR xs)) in
+  length outs = length xs /\
+  forall j, (j < length xs)%nat ->
+    finF (nth j outs 0%float) /\ (Rabs (FR (nth j outs 0%float) - nth j reals 0) <= atr_ebound p M)%R /\
+    (Rabs (nth j reals 0) <= 4 * M)%R.
+Proof. exact atr_float_uniform. Qed.
+Theorem C02_kc_binary64_error : forall p mu k xs M K, kc_new FOps p mu = Ok k -> (p < 35184372088832)%N ->
+  finF mu -> (Rabs (FR mu) <= K)%R -> (1 <= M)%R -> ((1 + K) * M <= bpow radix2 900)%R -> Forall (okin M) xs ->
+  let Ea := ebound p M in let Et := atr_ebound p M in
+  let D := (Ea + K * Et + 24 * (1 + K) * u * M)%R in
+  let outs := kc_outs FOps k xs in
+  let reals := kc_real (kreal p) (FR mu) (map FR xs) in
+  length outs = length xs /\
+  forall j, (j < length xs)%nat -> exists av up lo AV UP LO,
+    nth j outs [] = [av; up; lo] /\ nth j reals [] = [AV; UP; LO] /\ finF av /\ finF up /\ finF lo /\
+    (Rabs (FR av - AV) <= Ea)%R /\ (Rabs (FR up - UP) <= D)%R /\ (Rabs (FR lo - LO) <= D)%R.
+Proof. exact kc_float_error. Qed.
+
 From Coq Require Import List Floats.
 From TA Require Import Generic FloatInst XQ Run2 Par.Hom Par.Var Par.Oracle.
 (* the T2 oracle (exact rational run, evaluated by the checks) is the image of the exact real run these
